@@ -40,7 +40,15 @@ def mutants(rel):
 
 def run_one(args):
     idx, (rel, ln, old, new), outdir = args
-    wt = "/tmp/mutsweep-wt-%d" % (idx % WORKERS)
+    wid = POOL.get()          # one worktree per running task (tasks must never share one)
+    try:
+        return run_in(wid, idx, rel, ln, old, new)
+    finally:
+        POOL.put(wid)
+
+
+def run_in(wid, idx, rel, ln, old, new):
+    wt = "/tmp/mutsweep-wt-%d" % wid
     tag = "%s:%d" % (rel, ln + 1)
     res = {"id": idx, "where": tag, "old": old.strip(), "new": new.strip()}
     try:
@@ -75,6 +83,10 @@ def run_one(args):
 
 if __name__ == "__main__":
     outdir = sys.argv[1]; WORKERS = int(sys.argv[2]); files = sys.argv[3:] or list(FILES)
+    import queue
+    POOL = queue.Queue()
+    for w in range(WORKERS):
+        POOL.put(w)
     os.makedirs(outdir, exist_ok=True)
     for w in range(WORKERS):
         wt = "/tmp/mutsweep-wt-%d" % w
@@ -85,9 +97,13 @@ if __name__ == "__main__":
         ms += mutants(f)
     # spread: every k-th mutant when there are many
     LIMIT = int(os.environ.get("MUT_LIMIT", "400"))
-    if len(ms) > LIMIT:
+    if len(ms) > LIMIT and not os.environ.get("MUT_ONLY"):
         step = len(ms) / float(LIMIT)
         ms = [ms[int(i * step)] for i in range(LIMIT)]
+    only = os.environ.get("MUT_ONLY")
+    if only:
+        want = {tuple(l.rstrip("\n").split("\t")) for l in open(only)}
+        ms = [m for m in ms if ("%s:%d" % (m[0], m[1] + 1), m[3].strip()) in want]
     print("mutants:", len(ms), flush=True)
     with open(outdir + "/results.jsonl", "a") as out, concurrent.futures.ThreadPoolExecutor(max_workers=WORKERS) as ex:
         for r in ex.map(run_one, [(i, m, outdir) for i, m in enumerate(ms)]):
